@@ -53,7 +53,7 @@ type workspace struct {
 
 func goEnv() []string {
 	env := os.Environ()
-	return append(env, "GOFLAGS=-mod=mod", "GOPROXY=off", "GOSUMDB=off", "GOTOOLCHAIN=local")
+	return append(env, "GOFLAGS=-mod=mod", "GOPROXY=off", "GOSUMDB=off", "GOTOOLCHAIN=local", "GOGC=400")
 }
 
 func run(dir string, timeout time.Duration, stdin []byte, name string, args ...string) (stdout, stderr []byte, err error) {
@@ -309,6 +309,13 @@ func keys(m map[string][]byte) []string {
 	return ks
 }
 
+// buildArgs: the generated packages and probes are compiled without
+// optimisation / inlining and linked without DWARF: same semantics, about a
+// third less build CPU (the build dominates the cost of the check).
+func buildArgs() []string {
+	return []string{"build", "-trimpath", "-tags", "verif", "-ldflags=-s -w", "-gcflags=" + modPath + "/zvgen/...=-N -l"}
+}
+
 var errLineRe = regexp.MustCompile(`^(\S+?\.go):(\d+):(\d+): (.*)$`)
 
 // build compiles all installed schemas at once; compile errors are
@@ -325,7 +332,7 @@ func build(rec *common.Recorder, w *workspace, jobs []*job) map[*job]bool {
 	if len(live) == 0 {
 		return ok
 	}
-	args := []string{"build", "-trimpath", "-tags", "verif", "-o", w.bin + "/"}
+	args := append(buildArgs(), "-o", w.bin+"/")
 	for _, j := range live {
 		args = append(args, "./"+j.dir+"/...")
 	}
@@ -373,7 +380,7 @@ func build(rec *common.Recorder, w *workspace, jobs []*job) map[*job]bool {
 	}
 	// a failing package can keep unrelated binaries from being written: rebuild those
 	if len(retry) > 0 {
-		args := []string{"build", "-trimpath", "-tags", "verif", "-o", w.bin + "/"}
+		args := append(buildArgs(), "-o", w.bin+"/")
 		for _, j := range retry {
 			args = append(args, "./"+j.dir+"/"+j.probe)
 		}
